@@ -35,7 +35,9 @@ from ..wsgi_peer import WsgiPeer
 MTIME = 1_600_000_000.0
 TREE = [("a.txt", b"0123456789"), ("index.html", b"<h1>index</h1>"), ("page.html", b"<p>page</p>"),
         ("sub/index.html", b"<h1>sub</h1>"), ("sub/b.txt", b"bbbb"), ("big.bin", bytes((i * 7) % 251 for i in range(5000))),
-        ("empty.bin", b""), ("页.html", b"<p>ye</p>")]
+        ("empty.bin", b""), ("页.html", b"<p>ye</p>"),
+        # a file whose name is not UTF-8 on disk (latin-1 bytes), of a type mimetypes does not know
+        ("r\udce9sum\udce9.dat", b"cv"), ("caf\udce9.txt", b"menu")]
 SIZES = {rel: len(data) for rel, data in TREE}
 
 
@@ -60,7 +62,8 @@ QUERIES = [None, b"", b"a=1", b"a=1&b=two&b=three", b"q=%E4%B8%AD&empty=", b"x",
 PATHS = [b"/", b"/some/path", b"/caf%C3%A9", b"/a%20b/c", b"/x.y/z-1_2~"]
 ROUTER_PATHS = [b"/", b"/str/hello", b"/int/42", b"/dec/3.14", b"/dec/7", b"/uuid/123e4567-e89b-12d3-a456-426614174000",
                 b"/date/2021-03-04", b"/any/a/b/c", b"/users/7/posts/2021-01-02", b"/nope"]
-STATIC_PATHS = [b"/a.txt", b"/sub/b.txt", b"/big.bin", b"/empty.bin", b"/index.html", b"/%E9%A1%B5.html", b"/missing.txt", b"/sub", b"/"]
+STATIC_PATHS = [b"/a.txt", b"/sub/b.txt", b"/big.bin", b"/empty.bin", b"/index.html", b"/%E9%A1%B5.html", b"/missing.txt", b"/sub", b"/",
+                b"/r%E9sum%E9.dat", b"/caf%E9.txt"]
 PAGES_PATHS = STATIC_PATHS + [b"/page", b"/page.html", b"/sub/", b"/sub/index"]
 SUBPATHS_PATHS = [b"/api/int/5", b"/api/v1/x", b"/api/v1", b"/static/a.txt", b"/static/sub/b.txt", b"/pages/sub/", b"/pages/page",
                   b"/other", b"/api", b"/"]
@@ -112,7 +115,7 @@ _ADDR = re.compile(r"0x[0-9a-fA-F]{4,}")
 
 
 def _abbr(b, n=220):
-    b = bytes(b).replace(tr.DIGITS, b"<5000 digits>").replace(tr.NEST, b"<'['*2000>")
+    b = bytes(b).replace(tr.DIGITS, b"<5000 digits>").replace(tr.NEST, b"<'['*2000>").replace(tr.MANY, b"<'&k=v'*1500>")
     s = b.decode("latin-1")
     if len(s) > n:
         s = s[: n - 40] + "...(%d bytes)..." % len(b) + s[-30:]
